@@ -275,31 +275,9 @@ func runC02(c *Ctx) {
 		})
 	}
 	if allRows := c.Method(at, true, "AllRows"); allRows != nil {
-		p := ix.proverFor(allRows)
 		for i, ret := range returnsOf(allRows) {
 			v := results(ret)[0]
-			ms, isMake := p.resolve(v).(*ssa.MakeSlice)
-			ok := isMake
-			why := "not a fresh slice"
-			if isMake {
-				// len == len(rows) and a copy from rows into it dominates the return
-				copied := false
-				eachInstr(allRows, func(in ssa.Instruction) {
-					if call, is := isBuiltinCall(valueOf(in), "copy"); is {
-						f, _ := loadedField(call.Call.Args[1])
-						if sameSlice(call.Call.Args[0], ms) && f == rows && instrDominates(in, ret) {
-							copied = true
-						}
-					}
-				})
-				sameLen := false
-				if call, is := isBuiltinCall(ms.Len, "len"); is {
-					f, _ := loadedField(call.Call.Args[0])
-					sameLen = f == rows
-				}
-				ok = copied && sameLen
-				why = fmt.Sprintf("fresh make: %v, len(rows): %v, copy(rr, rows) before return: %v", isMake, sameLen, copied)
-			}
+			ok, why := freshFullCopy(ix, allRows, v, ret, func(x ssa.Value) bool { f, _ := loadedField(x); return f == rows }, 0)
 			r.Check("R02.5", FuncName(allRows), fmt.Sprintf("return #%d is a fresh full copy of the row list", i+1), ret.Pos(), ok, why)
 		}
 	}
@@ -788,4 +766,61 @@ func c02RowStorage(c *Ctx, row *types.Named, cells *types.Var) {
 		})
 	}
 	r.Floor("R02.3", "rows built by the library", n, 1)
+}
+
+// freshFullCopy: v, returned at ret in fn, is a slice made here (or by a helper, generic or not, that is handed the
+// source) with the source's length and filled by copy(v, src) - or append(<nil or empty>, src...) - before the return.
+func freshFullCopy(ix *idxEngine, fn *ssa.Function, v ssa.Value, ret ssa.Instruction, isSrc func(ssa.Value) bool, depth int) (bool, string) {
+	p := ix.proverFor(fn)
+	rv := p.resolve(unwrap(v, true))
+	switch x := rv.(type) {
+	case *ssa.MakeSlice:
+		copied := false
+		eachInstr(fn, func(in ssa.Instruction) {
+			if call, is := isBuiltinCall(valueOf(in), "copy"); is {
+				if sameSlice(call.Call.Args[0], x) && isSrc(call.Call.Args[1]) && instrDominates(in, ret) {
+					copied = true
+				}
+			}
+		})
+		sameLen := false
+		if call, is := isBuiltinCall(x.Len, "len"); is {
+			sameLen = isSrc(call.Call.Args[0])
+		}
+		return copied && sameLen, fmt.Sprintf("fresh make: true, len(source): %v, copy(new, source) before return: %v", sameLen, copied)
+	case *ssa.Call:
+		if b, isB := x.Call.Value.(*ssa.Builtin); isB && b.Name() == "append" && len(x.Call.Args) == 2 {
+			// append([]T(nil), src...) / append(make([]T, 0, n), src...)
+			base := p.resolve(unwrap(x.Call.Args[0], true))
+			empty := isNil(base)
+			if ms, isMS := base.(*ssa.MakeSlice); isMS {
+				if k, isK := constInt(ms.Len); isK && k == 0 {
+					empty = true
+				}
+			}
+			return empty && isSrc(x.Call.Args[1]), "append onto something that is not a fresh empty slice, or of something other than the source"
+		}
+		h := x.Call.StaticCallee()
+		if h == nil || h.Blocks == nil || !inModule(h) || depth > 2 {
+			return false, "not a fresh slice"
+		}
+		idx := -1
+		for k, a := range x.Call.Args {
+			if isSrc(a) {
+				idx = k
+			}
+		}
+		if idx < 0 || idx >= len(h.Params) {
+			return false, "the helper is not handed the source"
+		}
+		par := h.Params[idx]
+		for _, hret := range returnsOf(h) {
+			ok, why := freshFullCopy(ix, h, results(hret)[0], hret, func(y ssa.Value) bool { return y == ssa.Value(par) }, depth+1)
+			if !ok {
+				return false, "in " + FuncName(h) + ": " + why
+			}
+		}
+		return true, "a helper returns a fresh full copy of what it is given"
+	}
+	return false, "not a fresh slice"
 }
